@@ -109,6 +109,19 @@ Definition stress_ok (writer_closes : bool) (ws : list (bytes * obs)) (rs : list
   is_prefix (got rs) (wrote ws) &&
   (if writer_closes then last_is_eof rs && (lenN (got rs) =? lenN (wrote ws)) else true).
 
+(* a reader that is inside Read while the peer does Write(p); Close(): whatever the interleaving, every byte written
+   before Close is returned before the first EOF (rs = the reader's Read results in order, it reads on after an EOF
+   to show what was left behind) *)
+Fixpoint before_eof (rs : list (N * obs)) : bytes * bool :=
+  match rs with
+  | [] => ([], false)
+  | (_, ObR d REof) :: _ => (d, true)
+  | (_, ObR d _) :: r => let (x, e) := before_eof r in (d ++ x, e)
+  | _ :: r => before_eof r
+  end.
+Definition close_race_ok (written : bytes) (rs : list (N * obs)) : bool :=
+  let (x, e) := before_eof rs in e && beq x written.
+
 (* ---- listener ---- *)
 Inductive lop :=
 | ODial (i : N)            (* start Dial i in a goroutine, wait until it is queued or has returned *)
